@@ -194,8 +194,13 @@ class Sched:
         if self.aborting:
             raise Abort()
         if timeout is not None and timeout <= 0:
-            # a zero timeout never waits: decide on the spot (no scheduling point)
-            return 'ok' if can_run() else 'timeout'
+            # a zero timeout never waits: decide on the spot (no scheduling point).  The clock moves by a hair so that
+            # polling loops of the form `while deadline - now() >= 0: wait(deadline - now())` terminate as they do in
+            # real time.
+            if can_run():
+                return 'ok'
+            self.now += 1e-12
+            return 'timeout'
         me = self.cur
         me.state = BLOCKED
         me.can_run = can_run
@@ -235,6 +240,9 @@ class Sched:
             if sig and self.choose(2, 'crash') == 1:
                 self.crashes_left -= 1
                 self.crash_fn(self, me.ptag, sig)
+                # the calling thread belongs to the victim: it unwinds completely (still holding the baton, so that
+                # nothing else runs meanwhile) and hands over from its trampoline
+                raise Abort()
         if self.monitor is not None:
             msg = self.monitor(self)
             if msg:
@@ -256,6 +264,8 @@ class Sched:
         t, how = alts[c]
         if self.record:
             self.trace.append((f'T{me.idx}:{base_name(me.name)}' if me else '?', kind, _fmt(info), f'->T{t.idx}:{base_name(t.name)}' + ('(timeout)' if how == 'timeout' else '')))
+            if self.record == 'alts':
+                self.trace[-1] = self.trace[-1] + (tuple(f'T{a.idx}:{h}' for a, h in alts),)
         if how == 'timeout':
             if t.deadline > self.now:
                 self.now = t.deadline
@@ -413,6 +423,19 @@ def trace_codes(codes):
         if c not in _traced_codes:
             mon.set_local_events(_TOOL, c, mon.events.LINE)
             _traced_codes.add(c)
+
+
+def set_traced(codes):
+    """Make exactly these code objects traced (the set of scheduling points must not depend on what else this worker
+    process has run before)."""
+    want = set(codes)
+    if want == _traced_codes:
+        return
+    mon = sys.monitoring
+    for c in list(_traced_codes - want):
+        mon.set_local_events(_TOOL, c, 0)
+        _traced_codes.discard(c)
+    trace_codes(want - _traced_codes)
 
 
 def untrace_all():
@@ -766,10 +789,10 @@ def launch(s, st, fn, pyobj=None):
                 pyobj._is_stopped = True
                 pyobj._tstate_lock = None
             try:
-                if st.dead:
+                if st.dead and not (s.cur is st and not s.aborting):
                     st.state = FINISHED
                 else:
-                    s.thread_exit()
+                    s.thread_exit()     # (a crashed thread that held the baton hands over here)
             finally:
                 s.by_ident.pop(ident, None)
                 st.exited.release()
